@@ -27,7 +27,7 @@ from ..selftest import Mutant
 from . import kinds_driver
 
 PROP = "C07"
-TECHNIQUE = "static analysis: rank-domain abstract interpretation of the storage backends + CFG dominance of key normalisation + reaching-definition classification of indexed elements + interface conformance table + two-sided rank comparison rule + raw-key hand-off rule (callee re-normalises) + shape-from-key rule (no axis-less squeeze, no value-inferred object arrays) + constructor must-pass load + reversed-key rule + slice-of-indices round-trip rule + masked placeholders for unwritten elements"
+TECHNIQUE = "static analysis: rank-domain abstract interpretation of the storage backends + CFG dominance of key normalisation + reaching-definition classification of indexed elements + interface conformance table + two-sided rank comparison rule + raw-key hand-off rule (callee re-normalises) + shape-from-key rule (no axis-less squeeze, no value-inferred object arrays) + constructor must-pass load + reversed-key rule + slice-of-indices round-trip rule + masked placeholders for unwritten elements + absence decided by truthiness (`X.get(k) or default`)"
 SA = "pipefunc.map._storage_array"
 EXPLANATION = (
     "Static analysis of the storage backends: the rank-domain type system of sa/kinds.py over _base.py, _file.py and "
